@@ -3,6 +3,8 @@
    (Error::code) and docs/errors.md on every run. *)
 From Coq Require Import String.
 From PV Require Import Base.Common Gen.Codes.
+From Coq Require Import Permutation Sorted.
+From PV Require Base.IR Base.Tok Model.LexAlpha Model.Loc Proofs.LocProofs.
 
 Definition mem_code (c : N) (l : list N) : bool := existsb (N.eqb c) l.
 
@@ -36,6 +38,73 @@ Proof. vm_compute. reflexivity. Qed.
 Example C13_table_nonempty : Nat.leb 50 (List.length codes) = true.
 Proof. vm_compute. reflexivity. Qed.
 
+(* ---- locations ---------------------------------------------------------------------------
+   Every location of the first generation is a token location of the lexer, possibly combined by
+   Location::combined_with (Model/Loc.v follows lexer.rs arm by arm).  [anchored src l]: the span
+   lies in the source (it may end one past it: the listed finding D64), its line number is the
+   line on which the span starts and its line_offset is the column of the span start. *)
+
+(* every token that is not a lexical error is anchored (for EVERY source: LF, CRLF, bare CR,
+   non-ASCII); errors inside quoted literals report a displaced column, never a wrong line *)
+Theorem C13_token_locations_anchored : forall src t,
+  src <> [] -> In t (LexAlpha.lex_alpha_fixed src) -> Tok.kind t <> Tok.KError ->
+  LocProofs.anchored src (Loc.loc_of_tok t).
+Proof. exact LocProofs.lexer_locations_anchored_ok. Qed.
+
+Theorem C13_every_token_starts_on_its_line : forall src t,
+  src <> [] -> In t (LexAlpha.lex_alpha_fixed src) -> LocProofs.anchored_lex src (Loc.loc_of_tok t).
+Proof. exact LocProofs.lexer_locations_anchored_lex. Qed.
+
+(* combining keeps locations anchored and yields exactly the hull of the parts - for any tree of
+   combinations; receiver and argument may be swapped *)
+Theorem C13_combined_location_anchored : forall src t,
+  Forall (LocProofs.anchored src) (LocProofs.leaves t) -> LocProofs.anchored src (LocProofs.eval t).
+Proof. exact LocProofs.tree_anchored. Qed.
+
+Theorem C13_combined_location_is_the_hull : forall a b,
+  Loc.l_start (Loc.combined_with a b) = N.min (Loc.l_start a) (Loc.l_start b) /\
+  Loc.l_end (Loc.combined_with a b) = N.max (Loc.l_end a) (Loc.l_end b).
+Proof. exact LocProofs.combined_with_covers. Qed.
+
+Theorem C13_combined_with_commutes : forall src a b,
+  LocProofs.anchored src a -> LocProofs.anchored src b -> Loc.combined_with a b = Loc.combined_with b a.
+Proof. exact LocProofs.combined_with_comm. Qed.
+
+(* the pinned commit kept the receiver's line although the span could start earlier (D44) *)
+Theorem C13_pinned_combined_with_refuted :
+  exists src a b, LocProofs.anchored src a /\ LocProofs.anchored src b /\
+                  ~ LocProofs.anchored src (Loc.combined_with_pinned a b).
+Proof. exact LocProofs.combined_with_pinned_refuted. Qed.
+
+(* ---- order of the diagnostics -------------------------------------------------------------
+   Errors::sorted is a stable sort by (line, line_offset): for anchored locations that is the
+   order of positions in the source; the result is a permutation, sorted, and depends only on the
+   relative order of diagnostics AT THE SAME POSITION (which the traversal fixes) - and it does
+   depend on that, by a witness. *)
+Theorem C13_sorted_diagnostics_in_source_order : forall src (l : list (code * Loc.loc)),
+  Forall (fun d => LocProofs.anchored src (snd d)) l ->
+  StronglySorted (fun a b => (Loc.l_start (snd a) <= Loc.l_start (snd b))%N) (Loc.sort_diags l).
+Proof. exact LocProofs.sort_diags_by_position. Qed.
+
+Theorem C13_sorting_is_canonical : forall (l1 l2 : list (code * Loc.loc)),
+  (forall k, filter (LocProofs.has Loc.diag_key k) l1 = filter (LocProofs.has Loc.diag_key k) l2) ->
+  Loc.sort_diags l1 = Loc.sort_diags l2.
+Proof. exact LocProofs.sort_diags_canonical. Qed.
+
+Theorem C13_sorting_depends_on_order_at_equal_positions :
+  exists src a b, LocProofs.anchored src a /\ LocProofs.anchored src b /\ a <> b /\
+    Permutation [a; b] [b; a] /\ Loc.sort_locs [a; b] <> Loc.sort_locs [b; a].
+Proof. exact LocProofs.sort_depends_on_input_order. Qed.
+
 Print Assumptions C13_codes_documented.
 Print Assumptions C13_codes_injective.
 Print Assumptions C13_code_ranges.
+Print Assumptions C13_token_locations_anchored.
+Print Assumptions C13_every_token_starts_on_its_line.
+Print Assumptions C13_combined_location_anchored.
+Print Assumptions C13_combined_location_is_the_hull.
+Print Assumptions C13_combined_with_commutes.
+Print Assumptions C13_pinned_combined_with_refuted.
+Print Assumptions C13_sorted_diagnostics_in_source_order.
+Print Assumptions C13_sorting_is_canonical.
+Print Assumptions C13_sorting_depends_on_order_at_equal_positions.
